@@ -8,8 +8,8 @@
 //
 // One TSV line per case on stdout:
 //
-//	sse <id> <ka_us> <disc> <status> <ctype> <payloads> <raw> <items> <verdict> <handler> <desc> <fin>
-//	mp  <id> <boundary> <timeout_us> <disc> <status> <ctype> <payloads> <raw> <items> <batches> <verdict> <handler> <shape> <desc> <fin>
+//	sse <id> <ka_us> <disc> <status> <ctype> <payloads> <raw> <items> <verdict> <handler> <desc> <fin> <cancel>
+//	mp  <id> <boundary> <timeout_us> <disc> <status> <ctype> <payloads> <raw> <items> <batches> <verdict> <handler> <shape> <desc> <fin> <cancel>
 //	ns  <id> <transport> <status> <ctype> <raw> <verdict> <desc>
 //
 // payloads: comma separated hex of json.Marshal(resp) as the transport receives it (":1"/":0" =
@@ -18,6 +18,14 @@
 // transport.nextResponse must build from what the server's RecoverFunc returns (computed here from the
 // RecoverFunc's return value, not taken from the transport) and it is also the last entry of
 // <payloads>, i.e. <payloads> is always what has to be DELIVERED; <fin> is "-" when no panic was raised.
+// <cancel>: the request context was cancelled ON THE SERVER SIDE while the client kept reading
+// (plan.cancelAt / plan.cancelUS): "-" never; "<k>:<after>:<seen>" = cancelled just before response k was
+// built (k = number of payloads: before the nil that ends the operation), "t<us>:<after>:<seen>" = by a deadline
+// <us> microseconds after the request arrived; <after> = what the operation does once it sees the cancelled
+// context (0 goes on, 1 returns nil, 2 one last error payload then nil); <seen> = number of responses that had
+// been produced when the context was cancelled (-1: it never was).
+// -judge: no cases are generated; JSON lines on stdin (exchanges of a GENERATED server driven by
+// go/universal/httprun.go with `record`) are judged by the same oracles and printed in the same format.
 // With -race -par 1 every case is announced on stderr ("BEGIN <id>") so a
 // race report can be attributed to the case that was running.
 package main
@@ -102,7 +110,15 @@ type plan struct {
 	panicVal    int    // what is thrown: 0 string, 1 error, 2 runtime error, 3 *gqlerror.Error, 4 struct
 	recoverKind int    // the server's RecoverFunc: 0 graphql.DefaultRecover, 1 *gqlerror.Error (message, path, extensions), 2 plain error, 3 nil, 4 wrapped *gqlerror.Error
 	panicMsg    string // text carried by the panic value / the recovered error
+
+	// the request context is cancelled on the server side (a deadline middleware, shutdown) while the client
+	// stays connected and reads to EOF
+	cancelAt    int // -1 never; k: just before response k is built (k = len(payloads): before the nil / the panic that ends the operation)
+	cancelUS    int // > 0: by a deadline this many microseconds after the request arrived (any point of the stream)
+	afterCancel int // the operation, once it sees the cancelled context: 0 goes on as planned, 1 returns nil, 2 returns one last error payload, then nil
 }
+
+func (p *plan) cancels() bool { return p.cancelAt >= 0 || p.cancelUS > 0 }
 
 type fakeES struct {
 	p          *plan
@@ -110,6 +126,20 @@ type fakeES struct {
 	askedAfter atomic.Int32 // calls of the response handler after it had panicked
 	mu         sync.Mutex
 	expErr     *gqlerror.Error // what nextResponse has to put into the error response
+
+	cancel     func()       // cancels the request context (set by the middleware of runCase)
+	cancelled  atomic.Bool  // the planned cancellation happened
+	seenAtCancel atomic.Int32 // responses produced before it
+	produced   atomic.Int32
+	bye        bool
+}
+
+// cancelNow: the server-side cancellation of the request context
+func (e *fakeES) cancelNow() {
+	if e.cancel != nil && e.cancelled.CompareAndSwap(false, true) {
+		e.seenAtCancel.Store(e.produced.Load())
+		e.cancel()
+	}
 }
 
 type oddPanic struct {
@@ -197,6 +227,23 @@ func (e *fakeES) Exec(ctx context.Context) graphql.ResponseHandler {
 			e.askedAfter.Add(1) // the transport must stop asking once nextResponse reported the panic
 			return nil
 		}
+		if e.p.cancelAt == i {
+			e.cancelNow()
+		}
+		if e.p.afterCancel != 0 && e.p.cancels() && ctx.Err() != nil {
+			// the operation winds down because its context ended; the client is still there
+			if e.p.afterCancel == 2 && !e.bye {
+				e.bye = true
+				r := &graphql.Response{Errors: gqlerror.List{{Message: "operation expired: " + ctx.Err().Error()}}}
+				if e.p.kind == "mp" {
+					f := false
+					r.HasNext = &f
+				}
+				e.produced.Add(1)
+				return r
+			}
+			return nil
+		}
 		if i >= len(e.p.payloads) {
 			pause(e.p.tailUS)
 			if e.p.panicEnd {
@@ -217,6 +264,7 @@ func (e *fakeES) Exec(ctx context.Context) graphql.ResponseHandler {
 		for _, m := range p.errs {
 			r.Errors = append(r.Errors, &gqlerror.Error{Message: m})
 		}
+		e.produced.Add(1)
 		return r
 	}
 }
@@ -354,7 +402,7 @@ func genCount(r *rng.R) int {
 var kaChoices = []int{0, 1, 1, 2, 5, 20, 50, 200, 1000, 5000}
 
 func genSSE(r *rng.R, id int, directed int) *plan {
-	p := &plan{id: id, kind: "sse", disc: -1, body: `{"query":"{ x }"}`}
+	p := &plan{id: id, kind: "sse", disc: -1, cancelAt: -1, body: `{"query":"{ x }"}`}
 	n := genCount(r)
 	dclass := r.Below(5)
 	p.kaUS = kaChoices[r.Below(len(kaChoices))]
@@ -385,6 +433,22 @@ func genSSE(r *rng.R, id int, directed int) *plan {
 		n, dclass, p.kaUS, p.panicEnd, p.desc = 30, 0, 1, true, "panic-after-burst"
 	case 12: // ... after slow events, subscription
 		n, dclass, p.kaUS, p.panicEnd, p.body, p.desc = 4, 3, 100, true, `{"query":"subscription { s }"}`, "panic-after-slow"
+	// the request context is cancelled on the server side, the client keeps reading: everything the operation
+	// still produces must arrive, and the stream must end with `complete`:
+	case 13: // ... before the first response is built, the operation does not care
+		n, dclass, p.kaUS, p.cancelAt, p.afterCancel, p.desc = 3, 1, 100, 0, 0, "cancel-before-first-goes-on"
+	case 14: // ... between two payloads, the operation then ends
+		n, dclass, p.kaUS, p.cancelAt, p.afterCancel, p.desc = 5, 1, 100, 2, 1, "cancel-mid-ends"
+	case 15: // ... between two payloads, the operation says why it ends (one last payload), ping storm
+		n, dclass, p.kaUS, p.cancelAt, p.afterCancel, p.desc = 4, 2, 1, 2, 2, "cancel-mid-bye-pingstorm"
+	case 16: // ... after the last payload, before the nil
+		n, dclass, p.kaUS, p.tailUS, p.cancelAt, p.afterCancel, p.desc = 3, 1, 50, 500, 3, 1, "cancel-after-last"
+	case 17: // ... by a deadline while slow events are on their way
+		n, dclass, p.kaUS, p.cancelUS, p.afterCancel, p.desc = 6, 3, 200, 700, 2, "deadline-slow-bye"
+	case 18: // ... before the first response, the operation ends at once: header, then complete
+		n, p.kaUS, p.cancelAt, p.afterCancel, p.desc = 2, 20, 0, 1, "cancel-before-first-ends"
+	case 19: // ... a subscription bounded by a deadline middleware
+		n, dclass, p.kaUS, p.cancelAt, p.afterCancel, p.body, p.desc = 4, 2, 100, 2, 2, `{"query":"subscription { s }"}`, "cancel-subscription-bye"
 	}
 	if directed == 0 && r.Below(5) == 0 {
 		p.panicEnd, p.desc = true, "panic"
@@ -411,8 +475,26 @@ func genSSE(r *rng.R, id int, directed int) *plan {
 		} else {
 			p.desc = "disconnect"
 		}
+	} else if directed == 0 && r.Below(4) == 0 {
+		genCancel(r, p, n)
 	}
 	return p
+}
+
+// genCancel: where the server-side cancellation of the request context strikes and what the operation does then
+func genCancel(r *rng.R, p *plan, n int) {
+	if r.Below(3) == 0 {
+		p.cancelUS = 1 + r.Below(3000)
+	} else {
+		p.cancelAt = r.Below(n + 1)
+	}
+	p.afterCancel = r.Below(3)
+	if p.panicEnd {
+		p.afterCancel = 0
+		p.desc = "panic-cancel"
+	} else {
+		p.desc = "cancel"
+	}
 }
 
 // genPanic: what is thrown and what the server's RecoverFunc makes of it
@@ -429,7 +511,7 @@ var boundaries = []string{"", "", "graphql", "-", "--", "x--y", "B--", "a'b(c)+_
 var timeouts = []int{0, 1, 500, 1000, 1000, 2000, 3000}
 
 func genMP(r *rng.R, id int, directed int) *plan {
-	p := &plan{id: id, kind: "mp", disc: -1, body: `{"query":"{ x }"}`, shape: true}
+	p := &plan{id: id, kind: "mp", disc: -1, cancelAt: -1, body: `{"query":"{ x }"}`, shape: true}
 	n := genCount(r)
 	if n == 0 {
 		n = 1
@@ -472,6 +554,21 @@ func genMP(r *rng.R, id int, directed int) *plan {
 		n, dclass, p.timeoutUS, p.panicEnd, p.desc = 6, 3, 1000, true, "panic-tick-per-payload"
 	case 15: // ... right at Done
 		n, dclass, p.tailUS, p.panicEnd, p.desc = 3, 2, 0, true, "panic-done-race"
+	// the request context is cancelled on the server side, the client keeps reading:
+	case 16: // ... before the initial response is built, the operation does not care; one batch
+		n, dclass, p.timeoutUS, p.cancelAt, p.afterCancel, p.desc = 4, 0, 3000, 0, 0, "cancel-before-first-goes-on"
+	case 17: // ... between two payloads, one last payload (hasNext:false) says why; a tick between payloads
+		n, dclass, p.timeoutUS, p.cancelAt, p.afterCancel, p.desc = 6, 3, 1000, 2, 2, "cancel-mid-bye-ticks"
+	case 18: // ... the same within one flush
+		n, dclass, p.timeoutUS, p.cancelAt, p.afterCancel, p.desc = 3, 0, 3000, 1, 2, "cancel-mid-bye-same-flush"
+	case 19: // ... after the last payload
+		n, dclass, p.cancelAt, p.afterCancel, p.desc = 3, 1, 3, 1, "cancel-after-last"
+	case 20: // ... by a deadline while slow payloads are on their way
+		n, dclass, p.timeoutUS, p.cancelUS, p.afterCancel, p.desc = 6, 3, 1000, 1500, 2, "deadline-slow-bye"
+	case 21: // ... before the initial response: the only part is the operation's last word
+		n, p.cancelAt, p.afterCancel, p.desc = 3, 0, 2, "cancel-before-first-bye"
+	case 22: // ... the operation just stops (its last payload said hasNext:true: outside the shape, compared only)
+		n, dclass, p.cancelAt, p.afterCancel, p.desc = 5, 1, 2, 1, "cancel-mid-ends-noshape"
 	}
 	if directed == 0 && r.Below(5) == 0 {
 		p.panicEnd, p.desc = true, "panic"
@@ -519,13 +616,15 @@ func genMP(r *rng.R, id int, directed int) *plan {
 		} else {
 			p.desc = "disconnect"
 		}
+	} else if directed == 0 && r.Below(4) == 0 {
+		genCancel(r, p, n)
 	}
 	return p
 }
 
 func genNS(r *rng.R, id int) *plan {
 	bodies := []string{`{"query":`, `null`, `[]`, `{"query":"{ x }","variables":3}`, ``, `{"query":"{ nope }"}`, `{"query":"{"}`}
-	p := &plan{id: id, kind: "ns", disc: -1}
+	p := &plan{id: id, kind: "ns", disc: -1, cancelAt: -1}
 	p.body = bodies[r.Below(len(bodies))]
 	if r.Bool() {
 		p.transport = "sse"
@@ -778,6 +877,7 @@ func mpOracle(raw []byte, ctype string, payloads []hn, prefix bool) (items []str
 // ---------------------------------------------------------------- running a case
 
 type result struct {
+	seen     int // responses produced when the request context was cancelled on the server side (-1: it never was)
 	status   int
 	ctype    string
 	raw      []byte
@@ -828,6 +928,17 @@ func runCase(p *plan) result {
 				mu.Unlock()
 			}
 		}()
+		if p.cancels() {
+			// a middleware that bounds the life of the request: its context ends, the connection does not
+			ctx, cancel := context.WithCancel(r.Context())
+			defer cancel()
+			es.cancel = cancel
+			if p.cancelUS > 0 {
+				t := time.AfterFunc(time.Duration(p.cancelUS)*time.Microsecond, es.cancelNow)
+				defer t.Stop()
+			}
+			r = r.WithContext(ctx)
+		}
 		srv.ServeHTTP(w, r)
 	})
 	ts := httptest.NewUnstartedServer(h)
@@ -879,6 +990,10 @@ func runCase(p *plan) result {
 			state = "server-close-hang"
 		}
 		mu.Unlock()
+	}
+	res.seen = -1
+	if es.cancelled.Load() {
+		res.seen = int(es.seenAtCancel.Load())
 	}
 	mu.Lock()
 	res.payloads = rec
@@ -944,6 +1059,21 @@ func report(p *plan, res result) string {
 		ctype = "-"
 	}
 	ctype = strings.ReplaceAll(ctype, "\t", " ")
+	cancel := "-"
+	if p.cancels() {
+		if p.cancelUS > 0 {
+			cancel = fmt.Sprintf("t%d:%d:%d", p.cancelUS, p.afterCancel, res.seen)
+		} else {
+			cancel = fmt.Sprintf("%d:%d:%d", p.cancelAt, p.afterCancel, res.seen)
+		}
+		if p.kind == "mp" {
+			// what the operation produced decides whether the stream is inside the hasNext shape
+			p.shape = len(res.payloads) > 0 && !res.payloads[len(res.payloads)-1].hasNext
+			for _, q := range res.payloads[:max(len(res.payloads)-1, 0)] {
+				p.shape = p.shape && q.hasNext
+			}
+		}
+	}
 	switch p.kind {
 	case "sse":
 		items := parseSSE(res.raw)
@@ -956,7 +1086,7 @@ func report(p *plan, res result) string {
 				v = "payload-not-one-line-json"
 			}
 		}
-		return fmt.Sprintf("sse\t%d\t%d\t%d\t%d\t%s\t%s\t%s\t%s\t%s\t%s\t%s\t%s", p.id, p.kaUS, p.disc, res.status, ctype, pls, hx(res.raw), join(items), v, res.handler, p.desc, fin)
+		return fmt.Sprintf("sse\t%d\t%d\t%d\t%d\t%s\t%s\t%s\t%s\t%s\t%s\t%s\t%s\t%s", p.id, p.kaUS, p.disc, res.status, ctype, pls, hx(res.raw), join(items), v, res.handler, p.desc, fin, cancel)
 	case "mp":
 		items, batches, v := mpOracle(res.raw, res.ctype, res.payloads, p.disc >= 0)
 		if res.status != 200 {
@@ -975,7 +1105,7 @@ func report(p *plan, res result) string {
 		if _, params, err := mime.ParseMediaType(res.ctype); err == nil && params["boundary"] != "" {
 			bnd = params["boundary"]
 		}
-		return fmt.Sprintf("mp\t%d\t%s\t%d\t%d\t%d\t%s\t%s\t%s\t%s\t%s\t%s\t%s\t%d\t%s\t%s", p.id, hx([]byte(bnd)), p.timeoutUS, p.disc, res.status, ctype, pls, hx(res.raw), join(items), join(bs), v, res.handler, shape, p.desc, fin)
+		return fmt.Sprintf("mp\t%d\t%s\t%d\t%d\t%d\t%s\t%s\t%s\t%s\t%s\t%s\t%s\t%d\t%s\t%s\t%s", p.id, hx([]byte(bnd)), p.timeoutUS, p.disc, res.status, ctype, pls, hx(res.raw), join(items), join(bs), v, res.handler, shape, p.desc, fin, cancel)
 	}
 	// ns: a request the transport answers without opening a stream: one JSON document
 	v := "ok"
@@ -1004,6 +1134,10 @@ type corpusPlan struct {
 	Msg        string `json:"msg"`
 	Query      string `json:"query"`
 	Desc       string `json:"desc"`
+	// server-side cancellation of the request context (client stays connected)
+	CancelAt    *int `json:"cancel_at"`    // absent: never; k: just before response k is built
+	CancelUS    int  `json:"cancel_us"`    // deadline, microseconds after the request arrived
+	AfterCancel int  `json:"after_cancel"` // 0 the operation goes on, 1 returns nil, 2 one last error payload then nil
 }
 
 func loadCorpus(dir string, r *rng.R, add func(*plan), nextID func() int) {
@@ -1033,6 +1167,10 @@ func loadCorpus(dir string, r *rng.R, add func(*plan), nextID func() int) {
 		}
 		if p.kind != "sse" && p.kind != "mp" {
 			continue
+		}
+		p.cancelAt, p.cancelUS, p.afterCancel = -1, c.CancelUS, c.AfterCancel
+		if c.CancelAt != nil {
+			p.cancelAt = *c.CancelAt
 		}
 		t, fl := true, false
 		for i := 0; i < c.N; i++ {
@@ -1074,10 +1212,10 @@ func buildPlans(tier string, seed uint64, nSSE, nMP int) []*plan {
 	id := 0
 	add := func(p *plan) { plans = append(plans, p); id++ }
 	for rep := 0; rep < reps; rep++ {
-		for d := 1; d <= 12; d++ {
+		for d := 1; d <= 19; d++ {
 			add(genSSE(r.Fork(), id, d))
 		}
-		for d := 1; d <= 15; d++ {
+		for d := 1; d <= 22; d++ {
 			add(genMP(r.Fork(), id, d))
 		}
 	}
@@ -1092,6 +1230,66 @@ func buildPlans(tier string, seed uint64, nSSE, nMP int) []*plan {
 		add(genNS(r.Fork(), id))
 	}
 	return plans
+}
+
+// wireCase: one exchange of a GENERATED server (built at check time from the current templates) driven over a
+// real connection by go/universal/httprun.go with `record`: what the executor handed to the transport
+// (json.Marshal taken at that moment) and the bytes the client received.
+type wireCase struct {
+	ID        int      `json:"id"`
+	Kind      string   `json:"kind"` // sse | mp
+	KaUS      int      `json:"ka_us"`
+	TimeoutUS int      `json:"timeout_us"`
+	Status    int      `json:"status"`
+	CType     string   `json:"ctype"`
+	Produced  []string `json:"produced"` // hex
+	BodyHex   string   `json:"body_hex"`
+	Hung      bool     `json:"hung"`
+	Desc      string   `json:"desc"`
+	Cancel    string   `json:"cancel"` // the <cancel> column ("-": the request context was not cancelled)
+}
+
+// judge: the oracles of this harness on exchanges recorded elsewhere (stdin: one wireCase per line)
+func judge(in io.Reader, out io.Writer) {
+	sc := bufio.NewScanner(in)
+	sc.Buffer(make([]byte, 1<<20), 1<<28)
+	for sc.Scan() {
+		line := bytes.TrimSpace(sc.Bytes())
+		if len(line) == 0 {
+			continue
+		}
+		var c wireCase
+		if err := json.Unmarshal(line, &c); err != nil {
+			fmt.Fprintln(os.Stderr, "bad wire case:", err)
+			os.Exit(2)
+		}
+		p := &plan{id: c.ID, kind: c.Kind, desc: c.Desc, kaUS: c.KaUS, timeoutUS: c.TimeoutUS, disc: -1, cancelAt: -1, shape: true}
+		res := result{status: c.Status, ctype: c.CType, handler: "ok", seen: -1}
+		if c.Hung {
+			res.handler = "handler-hang"
+		}
+		res.raw, _ = hex.DecodeString(c.BodyHex)
+		for i, h := range c.Produced {
+			b, _ := hex.DecodeString(h)
+			var w struct {
+				HasNext *bool `json:"hasNext"`
+			}
+			json.Unmarshal(b, &w)
+			hasNext := w.HasNext != nil && *w.HasNext
+			res.payloads = append(res.payloads, hn{b, hasNext})
+			if hasNext != (i < len(c.Produced)-1) {
+				p.shape = false
+			}
+		}
+		if len(c.Produced) == 0 {
+			p.shape = false
+		}
+		l := report(p, res)
+		if c.Cancel != "" && c.Cancel != "-" {
+			l = l[:len(l)-1] + c.Cancel // the last column of report is "-"
+		}
+		fmt.Fprintln(out, l)
+	}
 }
 
 var sourceLine = regexp.MustCompile(`(?m)^\s+(/\S+\.go:\d+)`)
@@ -1200,8 +1398,15 @@ func main() {
 	seq := flag.Bool("seq", false, "one case at a time, announced on stderr (race attribution)")
 	announce := flag.Bool("announce", false, "internal: print BEGIN <id> on stderr before each case")
 	flag.StringVar(&corpusDir, "corpus", "", "directory of directed cases (*.json with a \"plan\")")
+	judgeMode := flag.Bool("judge", false, "judge recorded exchanges of a generated server (JSON lines on stdin) instead of running cases")
 	flag.Parse()
 	log.SetOutput(io.Discard) // the transports log decode errors
+	if *judgeMode {
+		out := bufio.NewWriterSize(os.Stdout, 1<<20)
+		defer out.Flush()
+		judge(os.Stdin, out)
+		return
+	}
 	plans := buildPlans(*tier, *seed, *nSSE, *nMP)
 	out := bufio.NewWriterSize(os.Stdout, 1<<20)
 	defer out.Flush()
